@@ -27,3 +27,10 @@ Print Assumptions C13_tlv_loop_terminates.
 Theorem C13_ExtractMPIs_allocation_bounded : forall d, ExtractMPIs_alloc d <= lenN d / 4.
 Proof. exact ExtractMPIs_alloc_bound. Qed.
 Print Assumptions C13_ExtractMPIs_allocation_bounded.
+
+(* the s-expression reader behind the key-file import terminates on every input: 2*|input|+4 rounds always suffice,
+   every list item consumes at least one byte *)
+From OTR Require Import Bytes.Sexp Bytes.SexpProofs.
+Theorem C13_sexp_reader_terminates : forall l, sexp_read l <> None.
+Proof. exact sexp_read_total. Qed.
+Print Assumptions C13_sexp_reader_terminates.
